@@ -330,7 +330,10 @@ def r8_visibility(text, log):
     new = sub_code(text, r'\bpub\s*\(\s*(crate|super|in\s+[A-Za-z_:]+)\s*\)\s*', f)
     if new != text:
         log.append('R8 visibility qualifiers -> pub')
-    return new
+    new2 = sub_code(new, r'\bcrate::rules::(?:[a-z_]+::)*', lambda m: '')
+    if new2 != new:
+        log.append('R8 module path prefixes `crate::rules::..::` dropped (single-file crate)')
+    return new2
 
 
 def drop_attrs(text, log, keep_derive=None):
@@ -667,11 +670,11 @@ def emit_fn(srcobj, name, impl=None, nth=0, contract='', loops=None, never_loop=
                 raise LostAnchor('fn %s: substitution anchor %r not found' % (name, a))
             body = body.replace(a, b)
             log.append('subst %r -> %r' % (a, b))
+        sig, body = r7_mut_self(sig, body, log)
         if never_loop is not None:
             body = r4_never_loop(body, log, never_loop)
         body = r3_loops(body, loops, log)
         body = insert_proofs(body, proofs, log)
-        sig, body = r7_mut_self(sig, body, log)
         if prologue and prologue.strip():
             body = '{\n' + prologue.rstrip() + '\n' + body[1:]
             log.append('proof prologue inserted at body start: ' + ' '.join(prologue.split())[:80])
